@@ -14,19 +14,19 @@ import (
 )
 
 // recWriter records every Write call separately.
-type recWriter struct {
+type zzrecWriter struct {
 	mu     sync.Mutex
 	writes [][]byte
 }
 
-func (w *recWriter) Write(b []byte) (int, error) {
+func (w *zzrecWriter) Write(b []byte) (int, error) {
 	w.mu.Lock()
 	w.writes = append(w.writes, append([]byte(nil), b...))
 	w.mu.Unlock()
 	return len(b), nil
 }
 
-type pframe struct {
+type zzpframe struct {
 	header   bool
 	mt       byte
 	id       string
@@ -38,8 +38,8 @@ type pframe struct {
 }
 
 // parseOne is the independent parser: b must be exactly one frame.
-func parseOne(b []byte) (pframe, bool) {
-	var f pframe
+func zzparseOne(b []byte) (zzpframe, bool) {
+	var f zzpframe
 	if len(b) < 10 {
 		return f, false
 	}
@@ -50,7 +50,7 @@ func parseOne(b []byte) (pframe, bool) {
 		if len(b) < 18 {
 			return f, false
 		}
-		nl, vl := int(be32(b[10:14])), int(be32(b[14:18]))
+		nl, vl := int(zzbe32(b[10:14])), int(zzbe32(b[14:18]))
 		if len(b) != 18+nl+vl {
 			return f, false
 		}
@@ -59,8 +59,8 @@ func parseOne(b []byte) (pframe, bool) {
 		if len(b) < 19 {
 			return f, false
 		}
-		f.index, f.terminal = be32(b[10:14]), b[14] == 1
-		dl := int(be32(b[15:19]))
+		f.index, f.terminal = zzbe32(b[10:14]), b[14] == 1
+		dl := int(zzbe32(b[15:19]))
 		if len(b) != 19+dl {
 			return f, false
 		}
@@ -71,18 +71,18 @@ func parseOne(b []byte) (pframe, bool) {
 	return f, true
 }
 
-type step struct {
+type zzstep struct {
 	n   int
 	err error
 }
 
-type stepBody struct {
+type zzstepBody struct {
 	data  []byte
-	steps []step
+	steps []zzstep
 	calls int
 }
 
-func (b *stepBody) Read(p []byte) (int, error) {
+func (b *zzstepBody) Read(p []byte) (int, error) {
 	if b.calls >= len(b.steps) {
 		return 0, io.EOF
 	}
@@ -99,9 +99,9 @@ func (b *stepBody) Read(p []byte) (int, error) {
 	b.data = b.data[n:]
 	return n, s.err
 }
-func (b *stepBody) Close() error { return nil }
+func (b *zzstepBody) Close() error { return nil }
 
-func c19req(hv string) *http.Request {
+func zzc19req(hv string) *http.Request {
 	return &http.Request{Method: "PUT", URL: &url.URL{Scheme: "https", Host: "example.com", Path: "/a b", RawQuery: "q=1"}, Host: "example.com",
 		Header: http.Header{"X-Sym": {hv}, "X-Two": {"1", "2"}}, Proto: "HTTP/1.1", ProtoMajor: 1, ProtoMinor: 1, RemoteAddr: "10.0.0.9:99", ContentLength: -1}
 }
@@ -111,19 +111,19 @@ func c19req(hv string) *http.Request {
 // headers and headers, and to data frames with contiguous indices whose
 // concatenation is what the consumer read, terminal iff the body hit EOF.
 func VerifC19Stream() {
-	w := &recWriter{}
+	w := &zzrecWriter{}
 	s := NewStream(w)
 	id := vf.String("id", 8)
 	hv := vf.String("header-value", vf.Choice("header-value-len", 3))
-	req := c19req(hv)
+	req := zzc19req(hv)
 	_, remove, err := martian.TestContext(req, nil, nil)
 	vf.Assert(err == nil, "test-context")
 	defer remove()
 	reads := 1 + vf.Choice("reads", vf.Param("reads"))
-	sb := &stepBody{data: vf.Bytes("body", 2*reads)}
+	sb := &zzstepBody{data: vf.Bytes("body", 2*reads)}
 	sawEOF := false
 	for i := 0; i < reads; i++ {
-		st := step{n: vf.Choice("n", 3)}
+		st := zzstep{n: vf.Choice("n", 3)}
 		if vf.Choice("eof", 2) == 1 {
 			st.err = io.EOF
 		}
@@ -153,9 +153,9 @@ func VerifC19Stream() {
 
 	// every write is exactly one frame; decode with both parsers
 	var all bytes.Buffer
-	var frames []pframe
+	var frames []zzpframe
 	for _, wr := range w.writes {
-		f, ok := parseOne(wr)
+		f, ok := zzparseOne(wr)
 		vf.Assert(ok, "each-write-is-one-whole-frame")
 		frames = append(frames, f)
 		all.Write(wr)
@@ -208,7 +208,7 @@ func VerifC19Stream() {
 // schedule within the preemption bound: frames are never torn or interleaved
 // within a frame, and per message the frames keep their order.
 func VerifC19Concurrent() {
-	w := &recWriter{}
+	w := &zzrecWriter{}
 	s := NewStream(w)
 	ids := []string{"AAAAAAAA", "BBBBBBBB"}
 	// Two phases. Logging the requests emits a dozen header frames per message; that phase runs
@@ -226,7 +226,7 @@ func VerifC19Concurrent() {
 			// through the exported API only: log a request, then read its body to the end
 			req := &http.Request{Method: "PUT", URL: &url.URL{Scheme: "http", Host: "h", Path: "/"}, Host: "h", Header: http.Header{},
 				Proto: "HTTP/1.1", ProtoMajor: 1, ProtoMinor: 1, ContentLength: 2,
-				Body: &stepBody{data: []byte{byte('a' + k), byte('a' + k)}, steps: []step{{n: 2}, {n: 0, err: io.EOF}}}}
+				Body: &zzstepBody{data: []byte{byte('a' + k), byte('a' + k)}, steps: []zzstep{{n: 2}, {n: 0, err: io.EOF}}}}
 			_, remove, err := martian.TestContext(req, nil, nil)
 			if err == nil {
 				defer remove()
@@ -251,9 +251,9 @@ func VerifC19Concurrent() {
 	close(start)
 	wg.Wait()
 	vf.Quiesce()
-	per := map[string][]pframe{}
+	per := map[string][]zzpframe{}
 	for _, wr := range w.writes {
-		f, ok := parseOne(wr)
+		f, ok := zzparseOne(wr)
 		vf.Assert(ok, "each-write-is-one-whole-frame")
 		per[f.id] = append(per[f.id], f)
 	}
